@@ -28,7 +28,7 @@ def plan(tier):
                 'transport rewrites responses into every failure reason with messages of length 0-200 or no message, '
                 'non-success statuses, and truncations at every byte class; every emitted request is fed to the '
                 'server decoder; a cell is (method, version, response class, outcome)',
-        'min_monitor': {'client_calls': 1500, 'results_compared_with_wire': 300, 'failures_compared': 500,
+        'min_monitor': {'client_calls': 1500, 'results_compared_with_wire': 300, 'failures_compared': 500, 'request_arguments_checked': 400,
                         'truncations_checked': 200, 'requests_checked_decodable': 1000},
         'assumptions': ['a legal failure response carries status, reason and an optional message',
                         'responses with a wrong operation echo or a wrong item count are not legal and are not generated'],
@@ -341,6 +341,127 @@ def calls(rng, env, version):
         want = (E.WrappingMethod.ENCRYPT.value, wuid, E.BlockCipherMode.NIST_KEY_WRAP.value, E.EncodingOption.NO_ENCODING.value)
         return None if got == want else 'key wrapping specification in the request: %r, arguments: %r' % (got, want)
     out.append(('get_with_wrapping_specification', lambda c: c.get(env['sympre'].uid, key_wrapping_specification=wspec), get_check, None, wrapspec_req))
+    # cryptographic calls: data, identifier, IV and every cryptographic parameter in the field that bears its name
+    CPTAGS = {'block_cipher_mode': E.Tags.BLOCK_CIPHER_MODE, 'padding_method': E.Tags.PADDING_METHOD, 'hashing_algorithm': E.Tags.HASHING_ALGORITHM,
+              'key_role_type': E.Tags.KEY_ROLE_TYPE, 'digital_signature_algorithm': E.Tags.DIGITAL_SIGNATURE_ALGORITHM,
+              'cryptographic_algorithm': E.Tags.CRYPTOGRAPHIC_ALGORITHM, 'random_iv': E.Tags.RANDOM_IV, 'iv_length': E.Tags.IV_LENGTH,
+              'tag_length': E.Tags.TAG_LENGTH, 'fixed_field_length': E.Tags.FIXED_FIELD_LENGTH,
+              'invocation_field_length': E.Tags.INVOCATION_FIELD_LENGTH, 'counter_length': E.Tags.COUNTER_LENGTH,
+              'initial_counter_value': E.Tags.INITIAL_COUNTER_VALUE}
+    CPINTRO = {'digital_signature_algorithm': E.KMIPVersion.KMIP_1_2, 'cryptographic_algorithm': E.KMIPVersion.KMIP_1_2,
+               'random_iv': E.KMIPVersion.KMIP_1_2, 'iv_length': E.KMIPVersion.KMIP_1_2, 'tag_length': E.KMIPVersion.KMIP_1_2,
+               'fixed_field_length': E.KMIPVersion.KMIP_1_2, 'invocation_field_length': E.KMIPVersion.KMIP_1_2,
+               'counter_length': E.KMIPVersion.KMIP_1_2, 'initial_counter_value': E.KMIPVersion.KMIP_1_2}
+
+    def rand_cp(kind_):
+        menu = {'block_cipher_mode': lambda: rng.choice(list(E.BlockCipherMode)[:8]), 'padding_method': lambda: rng.choice(list(E.PaddingMethod)),
+                'hashing_algorithm': lambda: rng.choice(list(E.HashingAlgorithm)[:8]), 'key_role_type': lambda: rng.choice(list(E.KeyRoleType)[:5]),
+                'digital_signature_algorithm': lambda: rng.choice(list(E.DigitalSignatureAlgorithm)[:8]),
+                'cryptographic_algorithm': lambda: rng.choice((CA.AES, CA.RSA, CA.TRIPLE_DES, CA.HMAC_SHA256)),
+                'random_iv': lambda: rng.choice((True, False)), 'iv_length': lambda: rng.choice((1, 12, 16)),
+                'tag_length': lambda: rng.choice((1, 12, 16)), 'fixed_field_length': lambda: rng.choice((1, 4)),
+                'invocation_field_length': lambda: rng.choice((1, 8)), 'counter_length': lambda: rng.choice((1, 4)),
+                'initial_counter_value': lambda: rng.choice((1, 7))}
+        names = rng.sample(sorted(menu), rng.randrange(1, 7))
+        return {n_: menu[n_]() for n_ in names}
+
+    def cp_problem(p_, cp_):
+        node = T.kid(p_, E.Tags.CRYPTOGRAPHIC_PARAMETERS.value)
+        got = {}
+        if node is not None:
+            got = {k_[0]: k_[2] for k_ in node[2]}
+        want = {}
+        for n_, v_ in (cp_ or {}).items():
+            # (the library writes every field it is given under every version; what arrives must be what was given)
+            want[CPTAGS[n_].value] = getattr(v_, 'value', v_)
+        return None if got == want else 'cryptographic parameters in the request %r, arguments %r' % (
+            {('%06X' % t): v for t, v in got.items()}, {('%06X' % t): v for t, v in want.items()})
+
+    def crypto_req(uid_, data_, cp_, iv_=None, sig_=None):
+        def chk(req):
+            p_ = req_payload(req)
+            got = (T.val(p_, T.T_UNIQUE_IDENTIFIER), T.val(p_, 0x4200C2), T.val(p_, 0x42003D), T.val(p_, 0x4200C3))
+            want = (uid_, data_, iv_, sig_)
+            if got != want:
+                return 'request carries (identifier, data, IV, signature) = %r for arguments %r' % (got, want)
+            return cp_problem(p_, cp_)
+        return chk
+    e_cp, e_data, e_iv = rand_cp('enc'), bytes(rng.getrandbits(8) for _ in range(rng.choice((1, 16, 33)))), rng.choice((None, b'\x07' * 16, b'\x08' * 12))
+    out.append(('encrypt_args', lambda c: c.encrypt(e_data, env['sym'].uid, e_cp, e_iv),
+                lambda res, p: None if (res[0], res[1]) == (first(p, 0x4200C2), first(p, 0x42003D)) else 'returned %r' % (res,),
+                None, crypto_req(env['sym'].uid, e_data, e_cp, e_iv)))
+    d_cp, d_data, d_iv = rand_cp('dec'), bytes(rng.getrandbits(8) for _ in range(rng.choice((16, 32)))), rng.choice((None, b'\x09' * 16))
+    out.append(('decrypt_args', lambda c: c.decrypt(d_data, env['sym'].uid, d_cp, d_iv),
+                lambda res, p: None if res == first(p, 0x4200C2) else 'returned %r, payload %r' % (res, first(p, 0x4200C2)),
+                None, crypto_req(env['sym'].uid, d_data, d_cp, d_iv)))
+    s_cp, s_data = rand_cp('sign'), bytes(rng.getrandbits(8) for _ in range(rng.choice((1, 20))))
+    out.append(('sign_args', lambda c: c.sign(s_data, env['priv'].uid, s_cp),
+                lambda res, p: None if res == first(p, 0x4200C3) else 'returned %r...' % (res[:8],), None, crypto_req(env['priv'].uid, s_data, s_cp)))
+    v_cp, v_msg, v_sig = rand_cp('verify'), bytes(rng.getrandbits(8) for _ in range(9)), bytes(rng.getrandbits(8) for _ in range(rng.choice((5, 128))))
+    out.append(('signature_verify_args', lambda c: c.signature_verify(v_msg, v_sig, env['pub'].uid, v_cp),
+                lambda res, p: None if getattr(res, 'value', res) == first(p, 0x42009B) else 'returned %r, payload %r' % (res, first(p, 0x42009B)),
+                None, crypto_req(env['pub'].uid, v_msg, v_cp, None, v_sig)))
+    m_alg, m_data = rng.choice((CA.HMAC_SHA1, CA.HMAC_SHA256, CA.HMAC_SHA512, CA.HMAC_MD5)), bytes(rng.getrandbits(8) for _ in range(11))
+    out.append(('mac_args', lambda c: c.mac(m_data, env['sym'].uid, m_alg),
+                lambda res, p: None if (res[0], res[1]) == (first(p, T.T_UNIQUE_IDENTIFIER), first(p, 0x4200C6)) else 'returned %r' % (res,),
+                None, crypto_req(env['sym'].uid, m_data, {'cryptographic_algorithm': m_alg})))
+    # creating calls: every argument becomes the attribute that bears its name
+    c_alg, c_len = rng.choice((CA.AES, CA.TRIPLE_DES, CA.BLOWFISH)), rng.choice((128, 192, 256))
+    c_name, c_pol = rng.choice((None, 'c19-n-%d' % rng.randrange(10 ** 6))), rng.choice((None, 'default'))
+    c_mask = rng.choice((None, [M.ENCRYPT], [M.ENCRYPT, M.DECRYPT, M.MAC_GENERATE]))
+
+    def attr_values(p_):
+        vals = {}
+        for _, it in T.walk(p_):
+            if it[0] == 0x420008 and it[1] == T.STRUCTURE:
+                v_ = T.kid(it, 0x42000B)
+                vals.setdefault(T.val(it, 0x42000A), []).append(v_[2] if v_ else None)
+        for _, it in T.walk(p_):
+            if it[0] in (0x420125, 0x420126, 0x420127, 0x420128) and it[1] == T.STRUCTURE:        # KMIP 2.0 Attributes / Common / Private Key / Public Key Attributes
+                for k_ in it[2]:
+                    try:
+                        vals.setdefault(E.convert_attribute_tag_to_name(E.Tags(k_[0])), []).append(k_[2])
+                    except Exception:
+                        vals.setdefault('%06X' % k_[0], []).append(k_[2])
+        return vals
+
+    def create_req(req):
+        p_ = req_payload(req)
+        vals = attr_values(p_)
+        want = {'Cryptographic Algorithm': [c_alg.value], 'Cryptographic Length': [c_len]}
+        # (the client's symmetric keys always carry Encrypt and Decrypt - its built-in default; the masks given are added)
+        want['Cryptographic Usage Mask'] = [sum(set([4, 8] + [m_.value for m_ in (c_mask or [])]))]
+        if c_pol is not None and version < E.KMIPVersion.KMIP_2_0:
+            want['Operation Policy Name'] = [c_pol]
+        got = {k_: vals.get(k_) for k_ in want}
+        names_ = [v_[0][2] for v_ in vals.get('Name', []) if isinstance(v_, list)]
+        if got != want or names_ != ([c_name] if c_name else []) or T.val(p_, 0x420057) != E.ObjectType.SYMMETRIC_KEY.value:
+            return 'request attributes %r names %r for arguments %r / %r' % (got, names_, want, c_name)
+        return None
+    out.append(('create_args', lambda c: c.create(c_alg, c_len, operation_policy_name=c_pol, name=c_name, cryptographic_usage_mask=c_mask),
+                uid_is, None, create_req))
+    k_len = rng.choice((1024, 2048))
+    k_pub, k_priv = rng.choice((None, 'c19-pub-%d' % rng.randrange(10 ** 6))), rng.choice((None, 'c19-priv-%d' % rng.randrange(10 ** 6)))
+    k_pm, k_vm = rng.choice((None, [M.VERIFY], [M.VERIFY, M.ENCRYPT])), rng.choice((None, [M.SIGN], [M.SIGN, M.DECRYPT]))
+
+    def pair_req(req):
+        p_ = req_payload(req)
+        if version >= E.KMIPVersion.KMIP_2_0:
+            parts = {'common': T.kid(p_, 0x420126), 'private': T.kid(p_, 0x420127), 'public': T.kid(p_, 0x420128)}
+        else:
+            parts = {'common': T.kid(p_, 0x42001F), 'private': T.kid(p_, 0x420065), 'public': T.kid(p_, 0x42006E)}
+        vals = {k_: (attr_values((0, T.STRUCTURE, [v_])) if v_ is not None else {}) for k_, v_ in parts.items()}
+        nm = lambda d_: [v_[0][2] for v_ in d_.get('Name', []) if isinstance(v_, list)]
+        mk = lambda d_: d_.get('Cryptographic Usage Mask')
+        got = (vals['common'].get('Cryptographic Algorithm'), vals['common'].get('Cryptographic Length'), nm(vals['public']), nm(vals['private']),
+               mk(vals['public']), mk(vals['private']))
+        want = ([CA.RSA.value], [k_len], [k_pub] if k_pub else [], [k_priv] if k_priv else [],
+                [sum(m_.value for m_ in k_pm)] if k_pm else None, [sum(m_.value for m_ in k_vm)] if k_vm else None)
+        return None if got == want else 'request carries (algorithm, length, public names, private names, public mask, private mask) = %r ' \
+            'for arguments %r' % (got, want)
+    out.append(('create_key_pair_args', lambda c: c.create_key_pair(CA.RSA, k_len, public_name=k_pub, private_name=k_priv,
+                                                                    public_usage_mask=k_pm, private_usage_mask=k_vm),
+                lambda res, p: None if tuple(res) == (first(p, 0x42006F), first(p, 0x420066)) else 'returned %r' % (res,), None, pair_req))
     # KMIPProxy-level operations return result objects instead of raising
     qf = rng.sample(list(E.QueryFunction)[:6], rng.randrange(1, 4))
     out.append(('proxy.query', lambda c: c.proxy.query(query_functions=[QueryFunctionPrim(f) for f in qf]),
